@@ -2,7 +2,8 @@
 from . import common as C
 
 HEADER = 'From WM Require Import Base.Prelude Message.Model Handler.RouterHandle Corr.C02.\n'
-PK = ['PubReal', 'PubDisabled', 'PubNil']
+PK = ['PubReal', 'PubDisabled', 'PubNil', 'PubReal']      # 3: the publisher is the subscriber object itself, same topic (a real publisher for the model)
+PKN = ['publisher', 'AddNoPublisherHandler', 'nil publisher', 'publisher = the subscriber object, publish topic = subscribe topic']
 PB = ['PubAccept', 'PubError', 'PubPanic']
 PRE = ['PreNone', 'PreAck', 'PreNack']
 ST = ['Unsettled', 'Acked', 'Nacked']
@@ -36,7 +37,7 @@ def case_term(c):
     return '(C02 %s %s %s %s (CR %s %s) %s %s)' % (ST[c.get('arrive', 0)], PK[c['pubkind']], PB[c['pub']], mws, PRE[c['pre']], out, C.coq_list(evs), ST[c['final']])
 
 def describe(c):
-    return dict(publisher=PK[c['pubkind']], publisher_behaviour=PB[c['pub']], middlewares=c['mws'], handler_pre_settle=PRE[c['pre']], settled_by_subscriber_before_delivery=ST[c.get('arrive', 0)],
+    return dict(publisher=PKN[c['pubkind']], publisher_behaviour=PB[c['pub']], middlewares=c['mws'], handler_pre_settle=PRE[c['pre']], settled_by_subscriber_before_delivery=ST[c.get('arrive', 0)],
                 handler_outcome=['returns', 'fails with', 'panics'][c['outkind']], handler_outputs=c['outs'], value=(['string', 'error', 'nil', '-'][c['panicv']] if c['outkind'] == 2 else ['plain error', 'wrapped context.Canceled, message ctx alive', 'context.Canceled, message ctx cancelled', 'context.DeadlineExceeded, message ctx expired'][c['panicv']]),
                 in_flight=c['flight'], observed_trace=c['trace'], final=ST[c['final']])
 
@@ -51,7 +52,7 @@ def run(ctx):
         for c in data:
             c['trace'] = c.get('trace') or []
             res.evaluations += 1
-            res.count('publisher=%s' % PK[c['pubkind']])
+            res.count('publisher=%s' % PKN[c['pubkind']])
             res.count('outcome=%s' % ['ret', 'fail', 'panic'][c['outkind']])
             res.count('in_flight=%d' % c['flight'])
             res.count('arrives=%s' % ST[c.get('arrive', 0)])
